@@ -652,3 +652,10 @@ Proof. destruct w as [|t r]; cbn [hd n_step_info n_step_info_pinned]; [reflexivi
 (* ... and for those the repaired loop keeps the first transition unchanged *)
 Lemma info_terminal_start g t r : any_done t = true -> n_step_info g (t :: r) = t.
 Proof. intros H. cbn [n_step_info]. rewrite H. reflexivity. Qed.
+
+(* ---------- layout of the learner's batches with a prioritised 1-step buffer ---------- *)
+Lemma shape_pinned_differs : exists B, from_indices_shape_pinned (per_idxs_shape B) <> per_rows_shape B.
+Proof. exists 2. cbv. discriminate. Qed.
+
+Lemma shape_repaired_agrees B : from_indices_shape_repaired (per_idxs_shape B) = per_rows_shape B.
+Proof. unfold from_indices_shape_repaired, per_idxs_shape, per_rows_shape. cbn [fold_right]. f_equal. lia. Qed.
